@@ -50,6 +50,82 @@ def run_witness(binpath, w):
                    "playground": [binpath, "playground-run", f],
                    "sandboxed-test": [binpath, "sandboxed-test", f] + [str(x) for x in w.get("args", [])],
                    }[kind]
+        elif kind == "roundtrip":
+            # C12: print each value with string_repr, then evaluate the printed text and compare
+            vals = w["input"]
+            prog = "\n".join("println(string_repr(%s))" % v for v in vals)
+            f = os.path.join(tmpdir, "a.gdn")
+            open(f, "w", encoding="utf-8").write(prog + "\n")
+            p1 = subprocess.run([binpath, "run", f], capture_output=True, text=True, timeout=w.get("timeout", 30), cwd=tmpdir)
+            printed = p1.stdout.split("\n")
+            if printed and printed[-1] == "":
+                printed = printed[:-1]
+            bad_items = []
+            if p1.returncode == 101 or "panicked at" in p1.stderr or len(printed) != len(vals):
+                bad_items.append("printing failed: rc=%s lines=%d/%d %s" % (p1.returncode, len(printed), len(vals), p1.stderr[-200:]))
+            else:
+                prog2 = "\n".join("println(string_repr((%s) == (%s)))" % (t, v) for t, v in zip(printed, vals))
+                f2 = os.path.join(tmpdir, "b.gdn")
+                open(f2, "w", encoding="utf-8").write(prog2 + "\n")
+                p2 = subprocess.run([binpath, "run", f2], capture_output=True, text=True, timeout=w.get("timeout", 30), cwd=tmpdir)
+                res = p2.stdout.split("\n")
+                for k, v in enumerate(vals):
+                    got = res[k] if k < len(res) else "<missing>"
+                    if got != "True":
+                        bad_items.append("%s printed as %s reads back %s" % (v, printed[k], got))
+                if p2.returncode == 101 or "panicked at" in p2.stderr:
+                    bad_items.append("re-evaluation crashed: " + p2.stderr[-200:])
+            obs = {"cmd": "run a.gdn ; run b.gdn", "exit": p1.returncode, "stdout": p1.stdout[-800:], "stderr": p1.stderr[-400:],
+                   "reproduced": bool(bad_items), "why": "; ".join(bad_items)[:1200]}
+            return obs
+        elif kind == "truncate-corpus":
+            # C01 bounded stand-in: every sampled prefix / one-character deletion of the repo's own
+            # .gdn files must be checked without a panic and within the time limit
+            import glob
+            import random
+            from concurrent.futures import ThreadPoolExecutor
+            rnd = random.Random(w.get("seed", 1))
+            files = sorted(glob.glob(os.path.join(REPO, "src/test_files/**/*.gdn"), recursive=True)) + \
+                sorted(glob.glob(os.path.join(REPO, "src/*.gdn")))
+            rnd.shuffle(files)
+            files = files[:w.get("n_files", 40)]
+            jobs = []
+            for fp in files:
+                try:
+                    txt = open(fp, encoding="utf-8").read()
+                except Exception:
+                    continue
+                txt = txt.split("// args:")[0][:6000]
+                n = len(txt)
+                if n == 0:
+                    continue
+                for c in sorted(set(rnd.randrange(0, n + 1) for _ in range(w.get("n_cuts", 6)))):
+                    jobs.append((fp, "prefix %d" % c, txt[:c]))
+                for _ in range(w.get("n_deletes", 2)):
+                    if n > 2:
+                        i = rnd.randrange(0, n - 1)
+                        jobs.append((fp, "delete char %d" % i, txt[:i] + txt[i + 1:]))
+            for extra in w.get("input", []):
+                jobs.append(("<listed>", "listed", extra))
+
+            def one(job):
+                (fp, what, text) = job
+                import hashlib
+                f = os.path.join(tmpdir, hashlib.md5(text.encode()).hexdigest() + ".gdn")
+                with open(f, "w", encoding="utf-8") as fh:
+                    fh.write(text)
+                try:
+                    p = subprocess.run([binpath, "check", f], capture_output=True, text=True, timeout=w.get("timeout", 20))
+                    if p.returncode == 101 or "panicked at" in (p.stdout + p.stderr):
+                        m = re.search(r"panicked at ([^\n]*)", p.stdout + p.stderr)
+                        return "%s %s: panic %s; input tail %r" % (os.path.relpath(fp, REPO) if fp != "<listed>" else fp, what, m.group(1) if m else "", text[-60:])
+                except subprocess.TimeoutExpired:
+                    return "%s %s: no result within %ds; input tail %r" % (os.path.relpath(fp, REPO) if fp != "<listed>" else fp, what, w.get("timeout", 20), text[-60:])
+                return None
+            with ThreadPoolExecutor(max_workers=w.get("workers", 12)) as ex:
+                bad_items = [r for r in ex.map(one, jobs) if r]
+            return {"cmd": "check <%d generated inputs>" % len(jobs), "exit": 0, "stdout": "", "stderr": "",
+                    "reproduced": bool(bad_items), "why": "; ".join(bad_items[:5])[:1500], "n_inputs": len(jobs)}
         elif kind == "json-session":
             f = os.path.join(tmpdir, "s.jsonl")
             with open(f, "w", encoding="utf-8") as fh:
